@@ -17,18 +17,24 @@ import (
 
 type Solver struct {
 	Name string
-	Args func(timeoutS int, file string) []string
+	Args func(timeoutS int, file string, seed int) []string
 }
 
 var solvers = []Solver{
-	{"z3-new", func(t int, f string) []string {
-		return []string{"z3-new", fmt.Sprintf("-T:%d", t), "smt.random_seed=1", f}
+	{"z3-new", func(t int, f string, seed int) []string {
+		return []string{"z3-new", fmt.Sprintf("-T:%d", t), fmt.Sprintf("smt.random_seed=%d", seed), f}
 	}},
-	{"z3", func(t int, f string) []string { return []string{"z3", fmt.Sprintf("-T:%d", t), "smt.random_seed=1", f} }},
-	{"cvc5", func(t int, f string) []string {
-		return []string{"cvc5", fmt.Sprintf("--tlimit=%d", t*1000), "--full-saturate-quant", "--seed=1", f}
+	{"z3", func(t int, f string, seed int) []string {
+		return []string{"z3", fmt.Sprintf("-T:%d", t), fmt.Sprintf("smt.random_seed=%d", seed), f}
+	}},
+	{"cvc5", func(t int, f string, seed int) []string {
+		return []string{"cvc5", fmt.Sprintf("--tlimit=%d", t*1000), "--full-saturate-quant", fmt.Sprintf("--seed=%d", seed), f}
 	}},
 }
+
+// seeds tried in turn when a back end gives up quickly with "unknown" (incomplete quantifier instantiation is
+// seed-sensitive); fixed, so that runs are reproducible
+var seedList = []int{1, 0, 7, 42}
 
 type solveOut struct {
 	result  string
@@ -42,7 +48,21 @@ func runSolver(s Solver, timeoutS int, file string) solveOut {
 }
 
 func runSolverCtx(parent context.Context, s Solver, timeoutS int, file string) solveOut {
-	args := s.Args(timeoutS, file)
+	var last solveOut
+	total := 0.0
+	for _, seed := range seedList {
+		last = runSolverSeed(parent, s, timeoutS, file, seed)
+		total += last.secs
+		if last.result != "unknown" || total > float64(timeoutS)/2 || parent.Err() != nil {
+			break
+		}
+	}
+	last.secs = total
+	return last
+}
+
+func runSolverSeed(parent context.Context, s Solver, timeoutS int, file string, seed int) solveOut {
+	args := s.Args(timeoutS, file, seed)
 	ctx, cancel := context.WithTimeout(parent, time.Duration(timeoutS+2)*time.Second)
 	defer cancel()
 	cmd := exec.CommandContext(ctx, args[0], args[1:]...)
@@ -241,6 +261,9 @@ func splitSolve(script, dir, base string, timeoutS int, branchVars []string) (so
 		}
 		cand := strings.Replace(script, "(check-sat)\n", extra+"(check-sat)\n", 1)
 		o := solveScript(cand, dir, fmt.Sprintf("%ss%d", base, mask), timeoutS)
+		if os.Getenv("RTV_DEBUG") != "" {
+			fmt.Fprintf(os.Stderr, "split %s mask %d/%d: %s %s %.2fs\n", base, mask, 1<<uint(len(m)), o.result, o.backend, o.secs)
+		}
 		total += o.secs
 		if o.result != "unsat" {
 			return solveOut{}, false
